@@ -31,6 +31,8 @@ import (
 	"errors"
 	"fmt"
 	"math"
+	"os"
+	"time"
 	"sort"
 	"strings"
 	"sync"
@@ -734,6 +736,12 @@ func main() {
 	slotsLeaf := []uint64{0, 7, math.MaxUint64}
 	slots1 := []uint64{7}
 
+	t0 := time.Now()
+	phase := func(name string) {
+		if os.Getenv("VERIF_DEBUG") != "" {
+			fmt.Fprintf(os.Stderr, "[%6.1fs] %s\n", time.Since(t0).Seconds(), name)
+		}
+	}
 	// ======== layer E ========
 	obsE := &obsTable{m: map[obsKey]bool{}}
 	var lcE localCount
@@ -753,6 +761,7 @@ func main() {
 		c.Distinct("E:" + s.shape)
 		lc.flush()
 	})
+	phase("E depth<=1 done")
 	// depth 2 (children drawn from leaves ∪ depth-1 scripts; includes again the depth<=1 scripts of the pool's bounds as children)
 	const chunk = 512
 	nChunks := (nD2 + chunk - 1) / chunk
@@ -774,6 +783,7 @@ func main() {
 	})
 	c.Set("layerE_scripts", int64(len(leavesBig)+len(depth1Big)+nD2))
 
+	phase("E depth2 done")
 	// re-encodings at d=1 (every header of the script): depth<=1 all; depth 2 over the d2 pool in thorough
 	var reMu sync.Mutex
 	reStats := map[string]int64{}
@@ -812,6 +822,7 @@ func main() {
 		})
 	}
 
+	phase("E reenc done")
 	// ======== layer R ========
 	eras := []int{EraAllegra, EraMary, EraAlonzo, EraBabbage, EraConway, EraDijkstra}
 	var rejR sync.Map
@@ -844,6 +855,7 @@ func main() {
 			c.Distinct("R:" + EraNames[era] + ":" + s.shape)
 			lc.flush()
 		})
+		phase("R " + EraNames[era] + " depth<=1 done")
 		// slot independence on leaves and depth-1 over the small grid
 		vlib.Parallel(len(allD1), func(i int) {
 			var lc localCount
@@ -873,6 +885,7 @@ func main() {
 			})
 			c.Set("layerR_depth2_scripts_per_era", int64(n))
 		}
+		phase("R " + EraNames[era] + " slots/depth2 done")
 		// re-encoded scripts inside transactions (depth<=1, d=1, all contexts of the small grid)
 		vlib.Parallel(len(allD1), func(i int) {
 			var lc localCount
@@ -895,6 +908,7 @@ func main() {
 		})
 	}
 
+	phase("R done")
 	// ---- evidence ----
 	for k, v := range reStats {
 		c.Set("reenc_E_"+k, v)
